@@ -641,6 +641,48 @@ func main() {
 		}
 	}
 
+	// (3d) date values held in other Locations than the process zone (types.Date is a time.Time; a
+	// caller can convert one from any time.Time): consecutive AddTask / PutCard calls whose dates are
+	// the same instant in two Locations (different calendar days) and the same calendar day in two
+	// Locations (different instants). The encoding is the calendar day the value itself shows.
+	{
+		c := newClient()
+		locs := []*time.Location{time.UTC, time.FixedZone("-10", -10*3600), time.FixedZone("+14", 14*3600), time.FixedZone("+0545", 5*3600+45*60), time.Local}
+		civ := func(t time.Time) spec.Civil { return spec.Civil{Y: t.Year(), M: int(t.Month()), D: t.Day()} }
+		for _, name := range []string{"AddTask", "PutCard", "SetTimeProfile"} {
+			op := spec.OpByName(name)
+			base := ops.Baseline(op)
+			send := func(from, to time.Time) {
+				a := spec.Args{}
+				for k, v := range base {
+					a[k] = v
+				}
+				a[ops.RawFrom], a[ops.RawTo] = types.Date(from), types.Date(to)
+				a["From"], a["To"] = civ(from), civ(to)
+				if !accepted(op, serial0, a) {
+					return
+				}
+				call(r, c, op, serial0, a, wireArgs(op, a), "")
+				distinct++
+			}
+			for _, t := range []time.Time{time.Date(2024, 3, 10, 23, 30, 0, 0, time.UTC), time.Date(2024, 12, 31, 12, 0, 0, 0, time.UTC), time.Date(2025, 1, 1, 0, 0, 0, 0, time.UTC), time.Date(2024, 2, 29, 9, 59, 59, 0, time.UTC)} {
+				for _, l1 := range locs {
+					for _, l2 := range locs {
+						if l1 == l2 {
+							continue
+						}
+						end := t.AddDate(0, 6, 0)
+						send(t.In(l1), end.In(l1))
+						send(t.In(l2), end.In(l2)) // same instants, other Location
+						y, m, d := t.In(l1).Date()
+						send(time.Date(y, m, d, 0, 0, 0, 0, l2), end.In(l2)) // same calendar day, other Location
+					}
+				}
+			}
+			c.fake.Reset()
+		}
+	}
+
 	// (4) histories: every ordered pair of operations on one client, and alternating between two
 	// clients; thorough: every ordered triple over a 10-operation sub-alphabet. Each operation has
 	// two distinct argument tuples (A = baseline, B = boundary variant) so leaked state is visible.
@@ -710,7 +752,7 @@ func main() {
 	}
 
 	r.Distinct(distinct)
-	r.Rule("per operation: baseline x serial alphabet; every argument over its full single-field domain (all uint8, 32-bit structured alphabet, all HH:mm, all ports, every octet, dates: thorough all 3652058 / quick 7 full years + first/last of every month, PINs: thorough all 10^6 / quick 0..9999 + boundaries); all argument pairs over boundary alphabets; every ordered pair of boundary values of one argument as two consecutive calls; all map shapes; passcode lists <= 6; SetTime over 5 Locations x every hour of 2024, and consecutive SetTime calls with the same instant / the same wall clock / the same second in every ordered pair of 7 Locations; every ordered pair of the 32 operations as a history on one and on two clients (thorough: triples over 10 operations). distinct = distinct (operation, argument tuple[, history]) cases generated; each differs from the baseline in at least one argument")
+	r.Rule("per operation: baseline x serial alphabet; every argument over its full single-field domain (all uint8, 32-bit structured alphabet, all HH:mm, all ports, every octet, dates: thorough all 3652058 / quick 7 full years + first/last of every month, PINs: thorough all 10^6 / quick 0..9999 + boundaries); all argument pairs over boundary alphabets; every ordered pair of boundary values of one argument as two consecutive calls; all map shapes; passcode lists <= 6; SetTime over 5 Locations x every hour of 2024, and consecutive SetTime calls with the same instant / the same wall clock / the same second in every ordered pair of 7 Locations; consecutive AddTask / PutCard / SetTimeProfile calls whose Date arguments are the same instant / the same calendar day held in two different Locations; every ordered pair of the 32 operations as a history on one and on two clients (thorough: triples over 10 operations). distinct = distinct (operation, argument tuple[, history]) cases generated; each differs from the baseline in at least one argument")
 	r.Assume("reference encoder spec.EncodeRequest and tables spec/protocol.go (hand-written)")
 	r.Assume("process time zone pinned to UTC (zone dependence is C05/C13)")
 	r.Finish()
